@@ -32,6 +32,7 @@ func init() {
 	}
 	extras["C02"] = func(c *Ctx) {
 		exactExpansion(c, "C02.P12")
+		c.Borrow("C16", "C16.X9", "C02.P14", "no parse result is kept across calls: what a path string means does not depend on which strings were parsed before (a cache keyed by a normalised spelling confuses `a.b/c.d`, one IRI, with `a.b / c.d`, a sequence)", 1, nil)
 		c02ActionsKeepOperands(c)
 		c.Borrow("C05", "C05.N1", "C02.P10", "every node of the document is a node of the index the paths are evaluated on: the input is flattened unconditionally (embedded and split node objects are hoisted and merged) before it is indexed", 5, nil)
 	}
@@ -84,6 +85,9 @@ func init() {
 		c18ArgumentCounts(c)
 		c.R.Rule("C18.W10", "what the library returns for two texts does not depend on the profiles compiled earlier in the process (a fresh command-line process has compiled none): the shared default prefix table is copied, never written", 1)
 		prefixResolution(c, "C18.W10")
+		c.Borrow("C09", "C09.S1", "C18.W12", "the public entry points hand the caller's texts and configurations to the validator unchanged: the command-line front end calls the validator directly, so anything the public wrapper does to a text first (a byte order mark stripped, blanks trimmed) makes the library's answer differ from what the command prints", 3, func(o Obligation) bool {
+			return strings.HasPrefix(o.Construct, "pkg.")
+		})
 		c.Borrow("C06", "C06.D1", "C18.W11", "no map iteration order reaches what the commands print: the normalised input and the policy are the same text on every run", 1, nil)
 	}
 	extras["C16"] = func(c *Ctx) {
@@ -102,6 +106,7 @@ func init() {
 	}
 	extras["C14"] = func(c *Ctx) {
 		exactNumbers(c, "C14.K8")
+		c14Verbatim(c)
 		c.Borrow("C12", "C12.J1", "C14.K7", "the report builder leaves the nodes of a result as the policy produced them: it names them, it does not remove or rewrite location nodes", 3, nil)
 	}
 	extras["C12"] = func(c *Ctx) {
@@ -110,11 +115,13 @@ func init() {
 		c12DegenerateProfiles(c, "C12.J12", "C12.J13")
 		c12NamesOfEnumValues(c)
 		c12ValidationFoundUnderItsName(c)
+		c.Borrow("C13", "C13.Q3", "C12.J18", "the message parser only replaces each placeholder by a conversion verb and doubles percent signs: nothing is deleted from the text, so a message that is not empty as written is not empty in the report", 2, nil)
 		c.Borrow("C18", "C18.W2", "C12.J17", "the report is printed as an operand, never as a format string: a % in a message would turn the JSON into something else", 3, nil)
 		c.Borrow("C18", "C18.W1", "C12.J14", "a report written to a file is the whole content of that file: the command-line front end truncates what the file held (a shorter report over a longer one leaves a tail that makes the file invalid JSON)", 2, nil)
 	}
 	extras["C15"] = func(c *Ctx) {
 		scalarTextGuard(c, "C15.O9")
+		c15OrderFreeFlags(c)
 		c.Borrow("C07", "C07.H6", "C15.O12", "every prefix and name the path grammar admits is accepted by the IRI expander: renaming a prefix to another admissible name does not turn a profile into an error", 2, nil)
 		yamlAliasesRejected(c, "C15.O10")
 		c.Borrow("C01", "C01.R4", "C15.O11", "no operand list of the generator is extended in place while another iteration still uses it (which operand survives would depend on how operands sort, that is on how prefixes and variables are spelled)", 1, func(o Obligation) bool {
@@ -1226,6 +1233,8 @@ func c05MessageValues(c *Ctx) {
 	}
 }
 
+var presenceTest = regexp.MustCompile(`object\.get\([^()]*(\([^()]*\)[^()]*)*,\s*null\s*\)\s*(!=|==)\s*null|null\s*(!=|==)\s*object\.get\(`)
+
 var holeText = regexp.MustCompile(`‹[^›]*›`)
 
 // impliesScalar: the boolean function g returns true only on paths on which `<prm><suffix>.Kind == yaml.ScalarNode` held
@@ -1323,7 +1332,8 @@ func c05PositionalAccess(c *Ctx) {
 		r.Unknown("C05.N9", "generator", "", "package internal/generator not found")
 		return
 	}
-	n, bad := 0, 0
+	r.Rule("C05.N11", "no generated code asks whether a property key is present (an empty array and an absent key denote the same graph)", 1)
+	n, bad, marshal, presence := 0, 0, 0, 0
 	for _, f := range gen.Syntax {
 		ast.Inspect(f, func(nd ast.Node) bool {
 			lit, ok := nd.(*ast.BasicLit)
@@ -1351,9 +1361,28 @@ func c05PositionalAccess(c *Ctx) {
 				bad++
 				r.Bad("C05.N9", relOf(gen)+"."+enclosingFuncName(gen, lit.Pos())+"#positional-access", p.Pos(lit.Pos()), why+": which values are neighbours depends on the order the document (or the node objects merged by flattening) lists them in, so two serialisations of one graph get different verdicts")
 			}
+			// N4 for the templates (the preamble itself is parsed and judged clause by clause by N4 proper)
+			if len(text) < 2000 {
+				for _, fn := range []string{"json.marshal(", "yaml.marshal(", "json.marshal_with_options("} {
+					if strings.Contains(probe, fn) {
+						marshal++
+						r.Bad("C05.N4", relOf(gen)+"."+enclosingFuncName(gen, lit.Pos())+"#template-"+strings.TrimSuffix(fn, "("), p.Pos(lit.Pos()), "a template prints a value with "+strings.TrimSuffix(fn, "(")+": numbers come out exactly as the document spelled them (2 / 2.0 / 2e0), so two serialisations of the same graph compare differently")
+					}
+				}
+			}
+			// N11: an empty array states no triple; flattening keeps `"p": []` in the node, so asking whether the key is
+			// there (object.get(..., null) compared with null) tells it apart from a node without the key
+			if m := presenceTest.FindString(probe); m != "" {
+				presence++
+				r.Bad("C05.N11", relOf(gen)+"."+enclosingFuncName(gen, lit.Pos())+"#presence-test", p.Pos(lit.Pos()), "a template tests whether a key is present ("+strings.TrimSpace(m)+"): `\"p\": []` and a node without p denote the same graph but answer differently")
+			}
 			return true
 		})
 	}
+	if presence == 0 {
+		r.OK("C05.N11", "census", "", fmt.Sprintf("%d string constants of the generator: none compares object.get(...) with null", n))
+	}
+	_ = marshal
 	if bad == 0 {
 		r.OK("C05.N9", "census", "", fmt.Sprintf("%d string constants of the generator (the embedded preamble included): none computes a position from another position", n))
 	}
@@ -1996,6 +2025,9 @@ func c16RuntimeConstants(c *Ctx, x11, x12, x13 string) {
 	}
 	if n13 == 0 {
 		r.Unknown(x13, "panics", "", "no explicit panic found in the parser runtime")
+	}
+	if x11 != "" {
+		c16CaseFolding(c)
 	}
 	if n11 == 0 && x11 != "" {
 		r.Unknown(x11, "rune-error-tests", "", "no comparison with utf8.RuneError found in the parser runtime")
@@ -2931,6 +2963,7 @@ func exactNumbers(c *Ctx, rid string) {
 // alone.
 func c13DefaultOnlyForEmpty(c *Ctx) {
 	r, p := c.R, c.P
+	r.Rule("C13.Q11", "the text handed to the message parser is what the YAML accessor returned (or the default): no function rewrites it on the way", 1)
 	r.Rule("C13.Q10", "the default message replaces a missing or empty message only: the condition looks at the accessor's error and at the text itself, not at anything computed from the text", 1)
 	pk := p.Pkg("internal/parser/profile")
 	if pk == nil {
@@ -2939,6 +2972,17 @@ func c13DefaultOnlyForEmpty(c *Ctx) {
 	}
 	n := 0
 	seen := map[string]bool{}
+	// the message parser: string -> Message
+	var msgParser *types.Func
+	for _, nm := range pk.Types.Scope().Names() {
+		if fn, ok := pk.Types.Scope().Lookup(nm).(*types.Func); ok {
+			sig := fn.Type().(*types.Signature)
+			if sig.Params().Len() == 1 && sig.Results().Len() == 1 && isStringType(sig.Params().At(0).Type()) && typeName(sig.Results().At(0).Type()) == "Message" {
+				msgParser = fn
+			}
+		}
+	}
+	n11 := 0
 	for _, fd := range symRoots(pk) {
 		fd := fd
 		proto := &symWalker{Inline: samePkgInline(pk)}
@@ -2946,6 +2990,37 @@ func c13DefaultOnlyForEmpty(c *Ctx) {
 			f, _ := fn.(*types.Func)
 			if f == nil || f.Pkg() != pk.Types {
 				return
+			}
+			if f == msgParser && len(args) == 1 && strings.Contains(args[0].String(), `Get("message")`) {
+				key := relOf(pk) + "." + fd.Name.Name + "/" + w.FuncName() + "#message-as-read"
+				if !seen[key] {
+					seen[key] = true
+					n11++
+					var rewriting []string
+					var scan func(s *Sym)
+					scan = func(s *Sym) {
+						if s == nil {
+							return
+						}
+						switch s.K {
+						case symChoice, symConcat:
+							if s.K == symConcat {
+								rewriting = append(rewriting, "a concatenation")
+							}
+							for _, part := range s.Parts {
+								scan(part)
+							}
+						case symCall:
+							if s.Fn == "result0" || s.Fn == "result1" || strings.Contains(s.Fn, "/internal/parser/yaml.Yaml).") {
+								return
+							}
+							rewriting = append(rewriting, s.Fn)
+						}
+					}
+					scan(args[0])
+					sort.Strings(rewriting)
+					r.Check(len(rewriting) == 0, "C13.Q11", key, p.Pos(call.Pos()), "the accessor's text (or the default)", "the message read from the profile passes through "+strings.Join(rewriting, ", ")+" before it is parsed: the report no longer shows the message as written (an escape sequence spelled out in the text is interpreted, blanks are trimmed, ...)")
+				}
 			}
 			for _, a := range args {
 				if a == nil || a.K != symChoice || len(a.AltConds) != len(a.Parts) {
@@ -2988,6 +3063,9 @@ func c13DefaultOnlyForEmpty(c *Ctx) {
 			}
 		}
 		p.SymWalk(pk, fd, proto, nil)
+	}
+	if n11 == 0 {
+		r.Unknown("C13.Q11", "message-as-read", "", "no call of the message parser with the text read from the profile was evaluated")
 	}
 	if n == 0 {
 		r.Unknown("C13.Q10", "default-message", "", "no call that chooses between a constant text and the message read from the profile was found")
@@ -3309,4 +3387,196 @@ func onEveryPath(fn *ssa.Function, b *ssa.BasicBlock) bool {
 		return false
 	}
 	return !dfs(fn.Blocks[0])
+}
+
+// c16CaseFolding (X14): the literals of the grammar are matched as they are written; the generated runtime folds the
+// case of the input only for literals marked ignoreCase (the grammar marks none).  Every call that changes the case of
+// a rune or text in the runtime must sit on the true side of a test of an ignoreCase field.
+func c16CaseFolding(c *Ctx) {
+	r, p := c.R, c.P
+	r.Rule("C16.X14", "the parser runtime folds the case of the input only for literals and classes marked ignoreCase", 1)
+	n := 0
+	for _, fn := range p.ModuleFuncs() {
+		if !isGeneratedParserFunc(p, fn) {
+			continue
+		}
+		ord := ordinal{}
+		for _, b := range fn.Blocks {
+			for _, ins := range b.Instrs {
+				ci, ok := ins.(ssa.CallInstruction)
+				if !ok {
+					continue
+				}
+				name := funcFullName(ssaCalleeObj(ci))
+				switch name {
+				case "unicode.ToLower", "unicode.ToUpper", "unicode.ToTitle", "strings.ToLower", "strings.ToUpper", "strings.EqualFold", "unicode.SimpleFold":
+				default:
+					continue
+				}
+				n++
+				guarded := false
+				for _, d := range fn.Blocks {
+					if d == b || !d.Dominates(b) || len(d.Instrs) == 0 {
+						continue
+					}
+					iff, ok := d.Instrs[len(d.Instrs)-1].(*ssa.If)
+					if !ok || !d.Succs[0].Dominates(b) || len(d.Succs[0].Preds) != 1 {
+						continue
+					}
+					if ld, ok := iff.Cond.(*ssa.UnOp); ok && ld.Op == token.MUL {
+						if fa, ok := ld.X.(*ssa.FieldAddr); ok && fieldNameOf(fa) == "ignoreCase" {
+							guarded = true
+						}
+					}
+				}
+				r.Check(guarded, "C16.X14", ord.next(FuncKey(fn)+"#"+name), p.Pos(ins.Pos()), "only for an expression marked ignoreCase", name+" is applied to the input whatever the expression says: `@Type` is then accepted where the grammar has the literal `@type`, a string that is no sentence of the grammar")
+			}
+		}
+	}
+	if n == 0 {
+		r.OK("C16.X14", "census", "", "the parser runtime never changes the case of the input")
+	}
+}
+
+// c15OrderFreeFlags (O13): the translator walks the operands of a formula in sorted order and accumulates facts about
+// them in boolean flags declared before the loop and read after it ("one of the operands defines its own message").
+// Such a flag must not depend on the order of the operands: inside the loop it is only ever set to a constant, or
+// combined with its own previous value (`f = f || x`).  `f = x` makes the last operand decide, and operands that sort
+// equal keep the order in which the profile lists them.
+func c15OrderFreeFlags(c *Ctx) {
+	r, p := c.R, c.P
+	r.Rule("C15.O13", "a boolean flag accumulated over the operands of a formula is set to a constant or combined with its previous value, never overwritten with what the current operand says", 1)
+	n := 0
+	for _, rel := range []string{"internal/generator", "internal/parser/profile"} {
+		pk := p.Pkg(rel)
+		if pk == nil {
+			continue
+		}
+		info := pk.TypesInfo
+		for _, f := range pk.Syntax {
+			for _, d := range f.Decls {
+				fd, ok := d.(*ast.FuncDecl)
+				if !ok || fd.Body == nil {
+					continue
+				}
+				ast.Inspect(fd.Body, func(nd ast.Node) bool {
+					var body *ast.BlockStmt
+					var loopPos, loopEnd token.Pos
+					switch l := nd.(type) {
+					case *ast.RangeStmt:
+						body, loopPos, loopEnd = l.Body, l.Pos(), l.End()
+					case *ast.ForStmt:
+						body, loopPos, loopEnd = l.Body, l.Pos(), l.End()
+					default:
+						return true
+					}
+					ast.Inspect(body, func(q ast.Node) bool {
+						as, ok := q.(*ast.AssignStmt)
+						if !ok || as.Tok != token.ASSIGN || len(as.Lhs) != len(as.Rhs) {
+							return true
+						}
+						for i, lhs := range as.Lhs {
+							id, ok := lhs.(*ast.Ident)
+							if !ok {
+								continue
+							}
+							v, ok := info.Uses[id].(*types.Var)
+							if !ok || v.Pos() >= loopPos && v.Pos() < loopEnd {
+								continue // declared inside the loop
+							}
+							if b, ok := v.Type().Underlying().(*types.Basic); !ok || b.Kind() != types.Bool {
+								continue
+							}
+							// read after the loop?
+							readAfter := false
+							ast.Inspect(fd.Body, func(u ast.Node) bool {
+								if uid, ok := u.(*ast.Ident); ok && uid.Pos() >= loopEnd && info.Uses[uid] == types.Object(v) {
+									readAfter = true
+								}
+								return true
+							})
+							if !readAfter {
+								continue
+							}
+							n++
+							rhs := ast.Unparen(as.Rhs[i])
+							okForm := false
+							if tv, ok := info.Types[rhs]; ok && tv.Value != nil {
+								okForm = true // a constant
+							}
+							if be, ok := rhs.(*ast.BinaryExpr); ok && (be.Op == token.LOR || be.Op == token.LAND) {
+								for _, side := range []ast.Expr{be.X, be.Y} {
+									if sid, ok := ast.Unparen(side).(*ast.Ident); ok && info.Uses[sid] == types.Object(v) {
+										okForm = true
+									}
+								}
+							}
+							key := relOf(pk) + "." + fd.Name.Name + "#flag:" + v.Name()
+							r.Check(okForm, "C15.O13", key, p.Pos(as.Pos()), "set to a constant or combined with its previous value", "the flag "+v.Name()+" is overwritten with "+types.ExprString(rhs)+" on every round of the loop, so after the loop it says what the LAST element said: the outcome depends on the order of the operands (and operands that sort equal keep the order the profile lists them in)")
+						}
+						return true
+					})
+					return true
+				})
+			}
+		}
+	}
+	if n == 0 {
+		r.Unknown("C15.O13", "flags", "", "no boolean flag that is set inside a loop and read after it was found in the translator or the profile parser")
+	}
+}
+
+// c14Verbatim (K9, K10): the numbers and the uri of a location travel from the data to the report as they are.
+// K9: no json.Number is converted (Float64 / Int64) in reach of the library: beyond 2^53 the float is another number.
+// K10: nothing in reach of the library re-serialises a text through net/url: a file name with a blank, a non-ASCII
+// letter or an upper-case scheme comes back spelled differently.
+func c14Verbatim(c *Ctx) {
+	r, p := c.R, c.P
+	r.Rule("C14.K9", "no number of the data or of the policy's result is converted from its literal (json.Number.Float64 / Int64)", 1)
+	r.Rule("C14.K10", "no text of the data is re-serialised through net/url", 1)
+	reach := p.Reach(libraryEntries(p)...)
+	funcs := sortedFuncs(reach)
+	n9, n10 := 0, 0
+	for _, fn := range funcs {
+		if !IsModuleFunc(fn) {
+			continue
+		}
+		ord := ordinal{}
+		for _, b := range fn.Blocks {
+			for _, ins := range b.Instrs {
+				switch verbatimBreaker(ins) {
+				case "number":
+					n9++
+					r.Bad("C14.K9", ord.next(FuncKey(fn)+"#json.Number-conversion"), p.Pos(ins.Pos()), "a json.Number is converted to a machine number: a line or column above 2^53 (or any large integer of the data) comes out changed")
+				case "url":
+					n10++
+					r.Bad("C14.K10", ord.next(FuncKey(fn)+"#net/url"), p.Pos(ins.Pos()), "a text is parsed or printed by net/url: a location with blanks, non-ASCII letters or an upper-case scheme is reported under another spelling than the document's")
+				}
+			}
+		}
+	}
+	if n9 == 0 {
+		r.OK("C14.K9", "census", "", fmt.Sprintf("%d functions in reach of the library: none converts a json.Number", len(funcs)))
+	}
+	if n10 == 0 {
+		r.OK("C14.K10", "census", "", fmt.Sprintf("%d functions in reach of the library: none uses net/url", len(funcs)))
+	}
+	canaryCheck(c, "C14.K9", []string{"number"}, verbatimBreaker)
+	canaryCheck(c, "C14.K10", []string{"url"}, verbatimBreaker)
+}
+
+// verbatimBreaker classifies an instruction for C14.K9 / K10: "number", "url" or "".
+func verbatimBreaker(ins ssa.Instruction) string {
+	ci, ok := ins.(ssa.CallInstruction)
+	if !ok {
+		return ""
+	}
+	name := funcFullName(ssaCalleeObj(ci))
+	switch {
+	case name == "(encoding/json.Number).Float64" || name == "(encoding/json.Number).Int64":
+		return "number"
+	case strings.HasPrefix(name, "net/url.") || strings.HasPrefix(name, "(*net/url.URL)."):
+		return "url"
+	}
+	return ""
 }
